@@ -95,6 +95,7 @@ PLANS["C16"] = {"level": "exploration", "parts": [("generic", "gen", 10000, 4000
                                 "widths, order and formatting are the reference's",
                                 "for-all-values is seeded sampling with boundary bias, not enumeration"]}
 PLANS["C09"]["parts"].append(("generic", "gen", 5000, 150000))
+PLANS["C09"]["parts"].append(("lifecycle", "gen", 3000, 80000))
 PLANS["C11"]["parts"].append(("generic", "gen", 4000, 100000))
 PLANS["C11"]["parts"].append(("lifecycle", "gen", 6000, 150000))
 PLANS["C17"]["parts"].append(("lifecycle", "gen", 3000, 80000))
